@@ -2,7 +2,7 @@
 Lean-executable smCertOk; Irving's algorithm itself is not modelled)."""
 import itertools, json, os
 from harness import smlib as S
-from harness.common import pmap, lean_query, guard, VERIF
+from harness.common import pmap, lean_query, guard, VERIF, safe_judge
 from harness.c01 import chunks
 
 LEVEL = "translation_validation"
@@ -61,6 +61,7 @@ def gen_exhaustive(R):
     return items
 
 
+@safe_judge
 def judge(R, it, res, cert, lean_ans):
     P1, P2, V1, V2 = it["P1"], it["P2"], it["V1"], it["V2"]
     n = len(P1)
